@@ -23,12 +23,14 @@ def workdir(name):
 
 
 def run(module_path, cfg_path, workers=1, timeout=1800, env=None, simulate=None, depth=None, seed=None,
-        coverage=False, heap='3g', dfs=False, extra_libs=()):
+        coverage=False, heap='3g', dfs=False, extra_libs=(), light=False):
     """run TLC; returns dict with out, rc, generated, distinct, depth, violated, printed"""
     d = os.path.dirname(os.path.abspath(module_path))
     meta = tempfile.mkdtemp(prefix='meta', dir=d)
     libs = os.pathsep.join([SPEC] + list(extra_libs))
-    cmd = ['java', '-XX:+UseParallelGC', '-Xmx' + heap, '-DTLA-Library=' + libs]
+    # light: many short single-worker runs side by side -- one GC thread, C1 only (halves CPU per run)
+    gc = ['-XX:+UseSerialGC', '-XX:TieredStopAtLevel=1'] if light else ['-XX:+UseParallelGC']
+    cmd = ['java'] + gc + ['-Xmx' + heap, '-DTLA-Library=' + libs]
     if dfs:
         cmd.append('-Dtlc2.tool.queue.IStateQueue=StateDeque')
     cmd += ['-cp', JAR, 'tlc2.TLC', '-workers', str(workers), '-metadir', meta, '-noGenerateSpecTE',
